@@ -176,10 +176,13 @@ fn check(prop: &str, tier: &str, threads: usize, cap: f64) -> String {
     let mut outcome = explore::explore_all(&cfgs, threads, cap);
     let mut capped = false;
     let mut shrink = 0;
+    let mut step = 0;
     while outcome.timed_out && outcome.found.is_empty() {
-        // the cap was hit: this depth is NOT claimed; fall back to the next smaller depth
+        // the cap was hit: this depth is NOT claimed; fall back to a smaller depth (one level less,
+        // then three, then six: the number of fall-back runs stays small whatever the overshoot)
         capped = true;
-        shrink += 1;
+        step += 1;
+        shrink += step;
         let smaller: Vec<exec::Cfg> = cfgs
             .iter()
             .map(|c| {
